@@ -1,7 +1,15 @@
 import Irismod.Props.C13_Random
+import Irismod.Proofs.RandomMonitor
 open Irismod
 #print axioms Irismod.Props.C13Random.beginBlock_total
 #print axioms Irismod.Props.C13Random.beginBlock_aborts_only_at_zero_time
 #print axioms Irismod.Props.C13Random.each_due_request_processed
 #print axioms Irismod.Props.C13Random.entry_survives_other_steps
 #print axioms Irismod.Props.C13Random.queue_hygiene_reachable
+-- monitor soundness: everything `drv-random monitor C13` evaluates is `Spec.C18Mon.stepFails`; on the model's own observation it reports nothing but the known finding F-rnd-1 where its exclusion hypothesis is violated (Proofs/RandomMonitor.lean)
+#print axioms Irismod.Proofs.RandomMonitor.monitor_sound
+#print axioms Irismod.Proofs.RandomMonitor.line_inv
+#print axioms Irismod.Proofs.RandomMonitor.line_inv_reset
+#print axioms Irismod.Proofs.RandomMonitor.model_step_inv
+#print axioms Irismod.Proofs.RandomMonitor.post_tracks_model
+#eval s!"nonvacuous {Irismod.Proofs.RandomMonitor.demoMonitor}"
